@@ -194,6 +194,34 @@ CLAIMS = {
         technique="abstract evaluation of the validation code per cell + call-graph slot "
                   "resolution with knob-pruned CFGs",
     ),
+    "C15": dict(
+        text="Decides the structural necessary condition of permutation equivariance: an "
+             "index-kind inference (domains N, P, G, T, Z, working-set positions, positions in a "
+             "group; seeded from roles, attribute table, slot signatures and loops, otherwise "
+             "inferred from use) finds no subscript whose index kind differs from the axis "
+             "domain and no variable with two contradictory beliefs, over all kernels, datafits "
+             "and penalties (~675 typed subscripts); the coordinate passed to a prox is the "
+             "feature/group, never its position in the working set; grp_converter only applies "
+             "order-preserving operations to the group specification. Equivariance of converged "
+             "solutions and scaling laws are numerical and not decided.",
+        design_ref="DESIGN.md §2 L4, §3.4 R-IDX, §4 C15",
+        note="Unknown kinds never raise alarms; only definite contradictions do.",
+        technique="belief-style index-domain inference (unification of index kinds with axis "
+                  "domains) over the ast",
+    ),
+    "C20": dict(
+        text="Decides that compiled kernels stay inside their arrays as far as extents are "
+             "visible in the code: index kinds match axis domains (same inference as C15); for "
+             "every datafit a solver accepts, get_lipschitz(_sparse) returns constants over the "
+             "domain (feature / group) the solver indexes them by; `a[:-1]` and `a[-1]` on "
+             "coefficient arrays occur only under the intercept flag; offset subscripts of "
+             "pointer arrays (indptr[j+1], grp_ptr[g+1]) are within the loop bound. "
+             "Value-dependent indices (contents of user arrays) are an input contract.",
+        design_ref="DESIGN.md §2 L4, §3.4 R-IDX/R-SLICE, §4 C20",
+        note="Extents are symbols with +/-1 offsets; G <= P is never assumed.",
+        technique="index-domain inference + linear offset comparison of loop bounds and "
+                  "subscripts + per-cell slot return-domain check",
+    ),
     "C16": dict(
         text="Decides two structural clauses: alpha_max helpers exclude zero weights "
              "before dividing (guarded division), and every solver that fits an intercept "
